@@ -26,6 +26,9 @@ def main():
         r = res[mid]
         if mid.startswith("SELF-"):
             continue
+        if r.get("neutralized_by"):
+            rows.append(f"| {mid} | {title(mid)} | n/a | no longer a behavioural change: {r['neutralized_by'][:70]}... |")
+            continue
         own = r.get("checks", {}).get(r.get("property"), {})
         ok = own.get("exit") == 1
         caught += ok
